@@ -437,7 +437,9 @@ class AdaByronAddrDecoder(IAddrDecoder):
             return dec_addr.payload.root_hash_bytes + (dec_addr.payload.attrs.hd_path_enc_bytes
                                                        if dec_addr.payload.attrs.hd_path_enc_bytes is not None
                                                        else b"")
-        except cbor2.CBORDecodeError as ex:
+        # cbor2 reports malformed semantic tags (e.g. a decimal fraction whose exponent is not an integer) with
+        # TypeError, OverflowError or a decimal exception instead of CBORDecodeError
+        except (cbor2.CBORDecodeError, TypeError, ArithmeticError) as ex:
             raise ValueError("Invalid CBOR encoding") from ex
 
 
